@@ -116,7 +116,13 @@ func init() {
 				Ops:     map[string]int{"add": 30, "addall": 5, "qpending": 12, "npend": 10, "nproc": 8, "metrics": 10, "settle": 6, "purge": 3, "close": 4, "qclose": 1, "release": 5, "yield": 3},
 				Ctrl:    map[string]int{"pause": 2, "resume": 3, "tune": 3},
 				MaxCtrl: 3, GatedProb: 35, Outs: []int{OutVal, OutVal, OutErr, OutPanicStr}, MaxBatch: 4}
-			return genProgram(t, "C17", pf, th)
+			c := genProgram(t, "C17", pf, th)
+			if rapid.IntRange(0, 3).Draw(t, "withfaults") == 0 {
+				for i := 0; i < rapid.IntRange(1, 2).Draw(t, "nfaults"); i++ {
+					c.Faults = append(c.Faults, Fault{Method: pick(t, "fmethod", []string{"Enqueue", "Dequeue", "Acknowledge", "Acknowledge"}), K: rapid.IntRange(1, 4).Draw(t, "fk")})
+				}
+			}
+			return c
 		},
 		Oracles: []oracleFn{oC17},
 		Foreign: []oracleFn{oCrash("*"), oDeadlock("C03"), oLivelock("C03")},
